@@ -76,6 +76,9 @@ type lowStore struct {
 	packedFail  map[int]int
 	packedOK    map[int]int
 	compactDone map[int]int
+	// failOnce: when 1, the next write of a small (non-packed) blob to this store fails once without
+	// taking effect (a transient fault; the caller retries the receive)
+	failOnce atomic.Int32
 }
 
 func newLow(name string) *lowStore {
@@ -222,6 +225,10 @@ func (v *view) ReceiveBlob(ctx context.Context, br blob.Ref, src io.Reader) (blo
 	l.mu.Unlock()
 	if ro {
 		return blob.SizedRef{}, errors.New("verif: wrapped store is read-only during the tamper phase")
+	}
+	if len(all) < packedMin && l.failOnce.CompareAndSwap(1, 0) {
+		l.record(lowEvent{Inc: v.inc, Op: "ReceiveBlob", Refs: []blob.Ref{br}, Size: len(all), Err: true})
+		return blob.SizedRef{}, errHook
 	}
 	act, crash := actPass, false
 	if hook != nil {
